@@ -94,16 +94,18 @@ def alt_modfile(work):
     return MODFILE
 
 
-def export(work, overlay, debug=''):
+def export(work, overlay, debug='', pkgs='./...'):
     out = os.path.join(work, 'ssa.json')
     exe = os.path.join(ROOT, 'bin', 'ssaexport')
-    if not os.path.exists(exe):
+    src = os.path.join(ROOT, 'tools', 'ssaexport', 'main.go')
+    if not os.path.exists(exe) or os.path.getmtime(src) > os.path.getmtime(exe):
         r = subprocess.run(['go', 'build', '-o', exe, '.'], cwd=os.path.join(ROOT, 'tools', 'ssaexport'), env=GOENV,
                            capture_output=True, text=True)
         if r.returncode != 0:
             log(r.stdout, r.stderr)
             raise SystemExit(2)
     cmd = [exe, '-dir', os.path.join(ROOT, 'harness'), '-overlay', overlay, '-out', out, '-allow', ALLOW, '-inits', INITS]
+    cmd += ['-pkgs', pkgs]
     if debug:
         cmd += ['-debug', debug]
     if MODFILE:
@@ -448,7 +450,9 @@ def run(pid, seed, t0):
     if not ARGS.only:
         shutil.rmtree(os.path.join(ROOT, 'replays', pid), ignore_errors=True)
     cfgmod = load_cfg(pid)
-    ssa = export(WORK, OVERLAY, debug=getattr(cfgmod, 'DEBUG_PKGS', ''))
+    # only the property's own harness package (and what it imports) is loaded, so that a
+    # change that breaks another property's overlay wrapper leaves this check unaffected
+    ssa = export(WORK, OVERLAY, debug=getattr(cfgmod, 'DEBUG_PKGS', ''), pkgs='./' + pid.lower())
     t_export = time.time() - t0
     PROG = ir.Program(ssa)
     pkg = 'vph/' + pid.lower()
